@@ -68,8 +68,10 @@ fn gen_start(rng: &mut Rng, focus: &str) -> Start {
                     bytes[8..12].copy_from_slice(&size.to_ne_bytes());
                 }
                 Start::Garbage(bytes)
-            } else {
+            } else if pick < 94 {
                 Start::Wiped { version: rng.below(2) as u16 }
+            } else {
+                Start::Foreign { gen: even_gen(rng), base: 1_000_000 + rng.below(1000) }
             }
         }
     }
@@ -278,6 +280,7 @@ fn enum_starts() -> Vec<Start> {
         Start::Garbage(segment_bytes(1, 0, 0)[..16].to_vec()),
         Start::Wiped { version: 0 },
         Start::Wiped { version: 1 },
+        Start::Foreign { gen: 8, base: 7000 },
         Start::Valid { gen: 2, base: 1 },
         Start::Valid { gen: 40000, base: 777 },
         Start::Valid { gen: 65534, base: 32767 },
@@ -405,6 +408,9 @@ fn mode_c11sweep(args: &std::collections::HashMap<String, String>) -> Value {
         let mut bad: Vec<String> = Vec::new();
         let mut word_points = 0;
         for (site, word, g) in seen.iter() {
+            if *g == 0 && g0v != 0 {
+                bad.push(format!("generation reads 0 at point {} of the update", site));
+            }
             if site.starts_with("wword") {
                 word_points += 1;
                 if g & 1 == 0 {
@@ -485,9 +491,15 @@ fn mode_c03long(args: &std::collections::HashMap<String, String>) -> Value {
     let mut idle_calls = 0u64;
     let mut distinct: HashSet<(u16, u64)> = HashSet::new();
     let mut samples = Vec::new();
-    let sleeps: Vec<u64> = vec![1, 2, 3, 100, 32765, 32766, 32767, 32768, 32769, 65533, 65534, 65535, 98301];
+    let fixed: Vec<u64> = vec![1, 2, 3, 100, 8191, 16383, 16384, 16385, 32765, 32766, 32767, 32768, 32769, 49151, 65533, 65534, 65535, 98301];
     let mut job = 0u64;
     for round in 0..rounds {
+        // The fixed list plus a few random skip sizes per round.
+        let mut sleeps = fixed.clone();
+        let mut rr = Rng::new(seed ^ 0x51EE9 ^ round);
+        for _ in 0..6 {
+            sleeps.push(1 + rr.below(70_000));
+        }
         for (k, sleep) in sleeps.iter().enumerate() {
             job += 1;
             if job % nshards != shard {
